@@ -444,6 +444,9 @@ func confirmCrash(o SupOpts, info core.Info, run uint64, class, replayDir, known
 	if err == nil {
 		return nil, fmt.Sprintf("confirmation of run %d left no summary", run)
 	}
+	if info.TokenScheduled && strings.Contains(buf.String()+stderr, "all goroutines are asleep") {
+		return nil, fmt.Sprintf("run %d: the Go runtime reports 'all goroutines are asleep': a goroutine of the code under test blocked in a synchronisation operation the scheduler was not told about (an unannounced channel, WaitGroup or Cond operation?). This is a gap of the simulator's hooks, not a verdict about the property.", run)
+	}
 	msg := fmt.Sprintf("worker process died (%s) during run %d, twice (also when re-executed alone): %s", class, run, firstFatal(buf.String()+stderr))
 	v := core.Violation{Class: "process-" + class, Msg: msg}
 	rf := &ReplayFile{Property: o.Prop, BaseSeed: o.Base, Run: run, RunSeed: tape.RunSeed(o.Base, o.Prop, run), Violation: v,
